@@ -1513,3 +1513,205 @@ func ruleDelRuleTotal(r *Run) {
 		}
 	}
 }
+
+func init() {
+	register(&Rule{Name: "HEADER-MD-ON-FAILURE", Floor: 1,
+		Doc: "in serveHTTP every path from the handler's return to the encoding of its error writes the stream's header metadata into the response header (setOutgoingHeader of stream.header), unless the headers were already sent (stream.sentHeader): a failing RPC delivers the header metadata the handler set before it failed, like a successful one",
+		Run: ruleHeaderMDOnFailure})
+}
+
+func ruleHeaderMDOnFailure(r *Run) {
+	p := r.P
+	fn := p.Method("Mux", "serveHTTP")
+	if fn == nil {
+		r.missing("method (*Mux).serveHTTP")
+		return
+	}
+	key := shortFunc(fn)
+	hf := p.StructField("handler", "handler")
+	sent := p.StructField("streamHTTP", "sentHeader")
+	isHeaderMD := func(x ssa.Instruction) bool {
+		c, ok := x.(ssa.CallInstruction)
+		if !ok || calleeName(c) != "larking.io/larking.setOutgoingHeader" || len(c.Common().Args) < 2 {
+			return false
+		}
+		for _, o := range p.origins(c.Common().Args[1], originOpts{local: true, throughConvert: true}) {
+			if f := loadedField(o); f != nil && f.Name() == "header" {
+				return true
+			}
+		}
+		return false
+	}
+	writes := func(x ssa.Instruction) bool {
+		if isHeaderMD(x) {
+			return true
+		}
+		c, ok := x.(ssa.CallInstruction)
+		return ok && x.Parent() == fn && p.callMay(c, isHeaderMD)
+	}
+	isEnc := func(x ssa.Instruction) bool {
+		c, ok := x.(ssa.CallInstruction)
+		return ok && calleeName(c) == "(*larking.io/larking.Mux).encError"
+	}
+	n := 0
+	eachInstr(fn, func(in ssa.Instruction) {
+		c, ok := in.(ssa.CallInstruction)
+		if !ok || calledField(c) != hf {
+			return
+		}
+		// only handler invocations that can lead to encError inside serveHTTP (the websocket branch ends differently)
+		if w, _ := (pathQuery{fn: fn, start: in, target: isEnc}).find(); w == nil {
+			return
+		}
+		n++
+		q := pathQuery{fn: fn, start: in, target: isEnc, barrier: writes,
+			edgeOK: func(b *ssa.BasicBlock, succ int) bool {
+				ifi := blockIf(b)
+				if ifi == nil || sent == nil {
+					return true
+				}
+				// `if stream.sentHeader` true edge / `if !stream.sentHeader` false edge: headers (and with them the
+				// metadata) went out already
+				cond, neg := ifi.Cond, false
+				if u, ok := cond.(*ssa.UnOp); ok && u.Op == token.NOT {
+					cond, neg = u.X, true
+				}
+				if loadedField(cond) == sent {
+					sentEdge := 0
+					if neg {
+						sentEdge = 1
+					}
+					return succ != sentEdge
+				}
+				return true
+			}}
+		k := fmt.Sprintf("%s/header-metadata-before-error#%d", key, n)
+		if w, hit := q.find(); w != nil {
+			r.bad(k, hit.Pos(), "the handler's error is encoded on a path on which the headers were not sent and the stream's header metadata was never written into the response header (%s): metadata set with grpc.SetHeader before the failure is dropped, although the trailer metadata is delivered", p.describePath(w))
+		} else {
+			r.ok(k, in.Pos(), "every path to the error encoder writes the header metadata or has sent the headers already")
+		}
+	})
+	if n == 0 {
+		r.undecided(key+"/header-metadata-before-error", fn.Pos(), "no handler invocation followed by encError found in serveHTTP")
+	}
+}
+
+func init() {
+	register(&Rule{Name: "WEB-FLUSH-COMMITS", Floor: 3,
+		Doc: "every way the gRPC-Web writer lets the response headers go out - Write, WriteHeader and Flush - first records them (seeHeaders, unless already recorded): serveGRPC ends the header phase with a Flush and writes status and trailers afterwards, so a Flush that records nothing leaves an RPC that fails before its first reply without the gRPC-Web content type and without a trailer frame (status in plain headers, handler trailers as HTTP trailers a browser cannot read)",
+		Run: ruleWebFlushCommits})
+}
+
+func ruleWebFlushCommits(r *Run) {
+	p := r.P
+	see := p.Method("webWriter", "seeHeaders")
+	wrote := p.StructField("webWriter", "wroteHeader")
+	if see == nil || wrote == nil {
+		r.missing("(*webWriter).seeHeaders / webWriter.wroteHeader")
+		return
+	}
+	isSee := func(x ssa.Instruction) bool {
+		c, ok := x.(ssa.CallInstruction)
+		return ok && c.Common().StaticCallee() == see
+	}
+	for _, name := range []string{"Write", "WriteHeader", "Flush"} {
+		fn := p.Method("webWriter", name)
+		if fn == nil {
+			r.missing("method (*webWriter)." + name)
+			continue
+		}
+		key := shortFunc(fn) + "/records-headers"
+		// the calls that let the headers go out on the underlying writer
+		outs := instrsOf(fn, func(x ssa.Instruction) bool {
+			c, ok := x.(ssa.CallInstruction)
+			if !ok || !c.Common().IsInvoke() {
+				return false
+			}
+			switch c.Common().Method.Name() {
+			case "Write", "WriteHeader", "Flush":
+				return true
+			}
+			return false
+		})
+		if len(outs) == 0 {
+			r.undecided(key, fn.Pos(), "no write/flush of the underlying writer found")
+			continue
+		}
+		q := pathQuery{fn: fn,
+			target: func(x ssa.Instruction) bool { return isReturn(x) },
+			barrier: func(x ssa.Instruction) bool {
+				return isSee(x) || (x.Parent() == fn && func() bool { c, ok := x.(ssa.CallInstruction); return ok && p.callMay(c, isSee) }())
+			},
+			edgeOK: func(b *ssa.BasicBlock, succ int) bool {
+				ifi := blockIf(b)
+				if ifi == nil {
+					return true
+				}
+				cond, neg := ifi.Cond, false
+				if u, ok := cond.(*ssa.UnOp); ok && u.Op == token.NOT {
+					cond, neg = u.X, true
+				}
+				if loadedField(cond) == wrote {
+					recorded := 0
+					if neg {
+						recorded = 1
+					}
+					return succ != recorded // already recorded: nothing to do on that edge
+				}
+				return true
+			}}
+		if w, hit := q.find(); w != nil {
+			r.bad(key, hit.Pos(), "%s can return without the response headers having been recorded (no seeHeaders on a path where wroteHeader is false: %s): what serveGRPC writes after its header-phase flush is then not recognised as trailers - an RPC failing before its first reply goes out with Content-Type application/grpc+proto, without a trailer frame, and with the handler's trailers as HTTP trailers", shortFunc(fn), p.describePath(w))
+		} else {
+			r.ok(key, fn.Pos(), "every path records the headers (seeHeaders) unless they are recorded already")
+		}
+	}
+}
+
+func init() {
+	register(&Rule{Name: "LIMIT-DIRECTION", Floor: 2,
+		Doc: "a size refusal on a send path (the region of a stream's SendMsg) compares with the send limit and one on a receive path (RecvMsg) with the receive limit: a reply checked against maxReceiveMessageSize is refused although it is within the configured send limit (with a small receive limit and the default send limit every larger gRPC reply fails)",
+		Run: ruleLimitDirection})
+}
+
+func ruleLimitDirection(r *Run) {
+	p := r.P
+	n := 0
+	for _, typ := range []string{"streamGRPC", "streamHTTP", "streamWS"} {
+		for _, dir := range []struct{ method, want, other string }{{"SendMsg", "send", "recv"}, {"RecvMsg", "recv", "send"}} {
+			fn := p.Method(typ, dir.method)
+			if fn == nil {
+				continue
+			}
+			seen := map[*ssa.Function]bool{}
+			site := 0
+			p.eachInstrRegion(fn, func(g *ssa.Function, _ ssa.Instruction) {
+				if seen[g] {
+					return
+				}
+				seen[g] = true
+				for _, lc := range p.limitCompares(g) {
+					if lc.kind != "send" && lc.kind != "recv" {
+						continue
+					}
+					if p.refusalEdge(lc.ifi) < 0 {
+						continue // pool-retention tests and clamps refuse nothing
+					}
+					n++
+					site++
+					key := fmt.Sprintf("(*%s).%s/refusal-uses-%s-limit#%d", typ, dir.method, dir.want, site)
+					if lc.kind == dir.other {
+						what := map[string]string{"send": "maxSendMessageSize", "recv": "maxReceiveMessageSize"}
+						r.bad(key, lc.bo.Pos(), "a message is refused on the %s path by comparing its size with %s: a message within the configured %s limit is refused on size grounds (and one over it may pass) whenever the two limits differ", strings.ToLower(strings.TrimSuffix(dir.method, "Msg")), what[lc.kind], dir.want)
+					} else {
+						r.ok(key, lc.bo.Pos(), "the refusal compares with the %s limit", dir.want)
+					}
+				}
+			})
+		}
+	}
+	if n == 0 {
+		r.undecided("stream size refusals", token.NoPos, "no refusing comparison with a configured size limit found in the stream methods")
+	}
+}
